@@ -488,6 +488,15 @@ func (o *operation) validate(transcoder *Transcoder) error {
 	return nil
 }
 
+// decompressLimit returns the maximum number of bytes that a single
+// message may occupy after decompression.
+func (o *operation) decompressLimit() int64 {
+	if o.methodConf == nil {
+		return DefaultMaxMessageBufferBytes
+	}
+	return int64(o.methodConf.maxMsgBufferBytes)
+}
+
 func (o *operation) queryValues() url.Values {
 	if o.queryVars == nil && o.request.URL.RawQuery != "" {
 		o.queryVars = o.request.URL.Query()
@@ -1576,7 +1585,7 @@ func (w *envelopingWriter) handleTrailer() error {
 	if w.trailerIsCompressed && data.Len() > 0 {
 		uncompressed := w.rw.op.bufferPool.Get()
 		defer w.rw.op.bufferPool.Put(uncompressed)
-		if err := w.rw.op.server.respCompression.decompress(uncompressed, data); err != nil {
+		if err := w.rw.op.server.respCompression.decompressLimited(uncompressed, data, w.rw.op.decompressLimit()); err != nil {
 			w.rw.reportError(err)
 			w.err = err
 			return err
@@ -1708,7 +1717,7 @@ func (w *transformingWriter) flushMessage() error {
 		if w.latestEnvelope.compressed && w.buffer.Len() > 0 {
 			data = w.rw.op.bufferPool.Get()
 			defer w.rw.op.bufferPool.Put(data)
-			if err := w.rw.op.server.respCompression.decompress(data, w.buffer); err != nil {
+			if err := w.rw.op.server.respCompression.decompressLimited(data, w.buffer, w.rw.op.decompressLimit()); err != nil {
 				return err
 			}
 		}
@@ -1796,7 +1805,7 @@ func (e *errorWriter) Close() error {
 	if compressPool := e.rw.op.server.respCompression; compressPool != nil && body.Len() > 0 {
 		uncompressed := bufferPool.Get()
 		defer bufferPool.Put(uncompressed)
-		if err := compressPool.decompress(uncompressed, body); err != nil {
+		if err := compressPool.decompressLimited(uncompressed, body, e.rw.op.decompressLimit()); err != nil {
 			// can't really just return an error; we have to encode the
 			// error into the RPC response, so we populate respMeta.end
 			if e.respMeta.end.httpCode == 0 || e.respMeta.end.httpCode == http.StatusOK {
@@ -2062,7 +2071,7 @@ func (m *message) decompress(op *operation) error {
 		return nil
 	}
 	tmp := op.bufferPool.Get()
-	if err := pool.decompress(tmp, m.buf); err != nil {
+	if err := pool.decompressLimited(tmp, m.buf, op.decompressLimit()); err != nil {
 		op.bufferPool.Put(tmp)
 		return err
 	}
